@@ -1,4 +1,6 @@
 mod c13;
+mod hirprops;
+mod specgen;
 mod specio;
 mod extract;
 mod c19;
@@ -31,6 +33,7 @@ fn main() {
     match prop.as_str() {
         "C13" => c13::run(&tier, seed, &out),
         "C19" => c19::run(&tier, seed, &out),
+        "C05" | "C06" | "C07" | "C08" | "C14" | "C15" | "C17" => hirprops::run(&prop, &tier, seed, &out),
         "C10" | "C11" | "C12" => fsprops::run(&prop, &tier, seed, &out),
         _ => {
             eprintln!("usage: lnv <property> --tier quick|thorough --seed N --out report.json");
